@@ -2,6 +2,6 @@
 (* Exhaustive configuration of IoSetup: full state, small constants.      *)
 EXTENDS IoSetup
 View == state
-OpsQ == {"refuse", "accept"}
-OpsT == {"refuse", "accept", "config", "create"}
+OpsQ == {"refuse", "accept", "release"}
+OpsT == {"refuse", "accept", "config", "create", "release"}
 =============================================================================
